@@ -331,19 +331,226 @@ Proof.
     destruct sorted as [|id rest]; [discriminate|].
     destruct (sp_find sps2 id) as [s|] eqn:F; [|discriminate].
     mbind H2 as c s2 Ha Hb. apply lift_ok in Ha. destruct Ha as [Hc ->].
-    apply ret_ok in Hb. destruct Hb as [<- <-]. cbn.
+    apply ret_ok in Hb. destruct Hb as [<- <-].
+    cbn [p_species p_heap p_detached p_orgs p_with p_last_species p_highest p_epochs_highest p_next_key].
     destruct (grant_step sps2 h2 id s c leftover (o_super c + leftover) Hnd2 F Hc) as [A1 [A2 [A3 A4]]].
     split; [lia|]. split.
     { eapply Forall2_trans; [exact quota_only_trans|exact S2|].
       eapply Forall2_trans; [exact quota_only_trans|exact G2|exact A2]. }
     split; [eapply heap_super_only_trans; [exact G3|exact A3]|].
-    repeat split; auto. intros Hb Hd Hpre. destruct (HJ1 Hb Hd Hpre) as [D2 J2].
-    apply A4; auto; [lia|]. destruct (J2 s (proj1 (sp_find_In _ _ _ F))) as [_ J]. specialize (J c Hc). lia.
-  - apply ret_ok in H2. destruct H2 as [<- <-]. cbn.
+    do 6 (split; [reflexivity|]). split; [assumption|]. intros Hb Hd Hpre. destruct (HJ1 Hb Hd Hpre) as [D2 J2].
+    destruct (J2 s (proj1 (sp_find_In _ _ _ F))) as [_ J]. specialize (J c Hc).
+    apply A4; auto; lia.
+  - apply ret_ok in H2. destruct H2 as [<- <-].
+    cbn [p_species p_heap p_detached p_orgs p_with p_last_species p_highest p_epochs_highest p_next_key].
     rewrite Z.gtb_ltb in L. apply Z.ltb_ge in L.
     assert (leftover = 0) by lia. subst leftover.
-    repeat split; auto.
-    + lia.
-    + eapply Forall2_trans; [exact quota_only_trans|exact S2|exact G2].
-    + intros Hb Hd Hpre. destruct (HJ1 Hb Hd Hpre) as [_ J2]. exact J2.
+    split; [lia|]. split; [eapply Forall2_trans; [exact quota_only_trans|exact S2|exact G2]|].
+    split; [assumption|]. do 6 (split; [reflexivity|]). split; [assumption|].
+    intros Hb Hd Hpre. destruct (HJ1 Hb Hd Hpre) as [_ J2]. exact J2.
+Qed.
+
+(* ---------- 6b. deltaCoding ---------- *)
+(* deltaCoding also resets AgeOfLastImprovement of the two best species; identity, age, members
+   stay *)
+Definition sp_frame (s s' : species) : Prop :=
+  sp_id s' = sp_id s /\ sp_age s' = sp_age s /\ sp_maxfit s' = sp_maxfit s /\ sp_novel s' = sp_novel s /\
+  sp_orgs s' = sp_orgs s.
+
+Definition delta_refresh (s : species) (n : Z) : species :=
+  {| sp_id := sp_id s; sp_age := sp_age s; sp_maxfit := sp_maxfit s; sp_exp := n;
+     sp_novel := sp_novel s; sp_orgs := sp_orgs s; sp_lastimp := sp_age s |}.
+
+(* sums of a function of the species id *)
+Definition isum (phi : Z -> Z) (l : list species) : Z := fold_right (fun s acc => phi (sp_id s) + acc) 0 l.
+
+Lemma isum_cons phi x l : isum phi (x :: l) = phi (sp_id x) + isum phi l.
+Proof. reflexivity. Qed.
+
+Lemma sp_sum_map_isum (g : species -> species) phi l :
+  (forall s, In s l -> sp_exp (g s) = phi (sp_id s)) -> sp_sum (map g l) = isum phi l.
+Proof.
+  induction l as [|x l IH]; intros H; [reflexivity|]. cbn [map]. rewrite sp_sum_cons, isum_cons.
+  rewrite (H x (or_introl eq_refl)), IH; [reflexivity|]. intros s Hs. apply H. now right.
+Qed.
+
+Lemma isum_plus p1 p2 l : isum (fun i => p1 i + p2 i) l = isum p1 l + isum p2 l.
+Proof. induction l as [|x l IH]; [reflexivity|]. rewrite !isum_cons, IH. lia. Qed.
+
+Lemma isum_absent a x l : ~ In a (map sp_id l) -> isum (fun i => if Z.eqb i a then x else 0) l = 0.
+Proof.
+  induction l as [|y l IH]; intros H; [reflexivity|]. rewrite isum_cons, IH by (intros C; apply H; now right).
+  destruct (Z.eqb (sp_id y) a) eqn:E; [|lia]. apply Z.eqb_eq in E. exfalso. apply H. now left.
+Qed.
+
+Lemma isum_once a x l : NoDup (map sp_id l) -> In a (map sp_id l) -> isum (fun i => if Z.eqb i a then x else 0) l = x.
+Proof.
+  induction l as [|y l IH]; intros Hnd Hin; [destruct Hin|]. cbn in Hnd. inversion Hnd as [|u v Hn Hnd']; subst.
+  rewrite isum_cons. destruct (Z.eqb (sp_id y) a) eqn:E.
+  - apply Z.eqb_eq in E. rewrite isum_absent by (rewrite <- E; exact Hn). lia.
+  - destruct Hin as [Hin|Hin]; [apply Z.eqb_neq in E; contradiction|]. rewrite (IH Hnd' Hin). lia.
+Qed.
+
+Lemma fold_sp_set_zero rest : forall l,
+  fold_left (fun acc id => sp_set acc id (fun s => sp_with_exp s 0)) rest l =
+  map (fun s => if existsb (Z.eqb (sp_id s)) rest then sp_with_exp s 0 else s) l.
+Proof.
+  induction rest as [|id r IH]; intros l.
+  - cbn. now rewrite map_id.
+  - cbn [fold_left]. rewrite IH. unfold sp_set. rewrite map_map. apply map_ext. intros s.
+    cbn [existsb]. destruct (Z.eqb (sp_id s) id); cbn [orb sp_id sp_with_exp]; [|reflexivity].
+    destruct (existsb (Z.eqb (sp_id s)) r); reflexivity.
+Qed.
+
+Lemma existsb_Zeqb_In x l : existsb (Z.eqb x) l = true <-> In x l.
+Proof.
+  rewrite existsb_exists. split.
+  - intros [y [Hy E]]. apply Z.eqb_eq in E. now subst.
+  - intros H. exists x. split; [assumption|apply Z.eqb_refl].
+Qed.
+
+(* the species list after deltaCoding, as one map *)
+Definition delta_map (a b : Z) (na nb : Z) (rest : list Z) (s : species) : species :=
+  let s1 := if Z.eqb (sp_id s) a then delta_refresh s na else s in
+  let s2 := if Z.eqb (sp_id s1) b then delta_refresh s1 nb else s1 in
+  if existsb (Z.eqb (sp_id s2)) rest then sp_with_exp s2 0 else s2.
+
+Lemma delta_map_frame a b na nb rest s : sp_frame s (delta_map a b na nb rest s).
+Proof.
+  unfold delta_map, sp_frame. destruct (Z.eqb (sp_id s) a); cbn [sp_id delta_refresh];
+    destruct (Z.eqb (sp_id s) b); cbn [sp_id delta_refresh];
+      destruct (existsb (Z.eqb (sp_id s)) rest); cbn; repeat split; reflexivity.
+Qed.
+
+Lemma delta_map_id a b na nb rest s : sp_id (delta_map a b na nb rest s) = sp_id s.
+Proof. exact (proj1 (delta_map_frame a b na nb rest s)). Qed.
+
+Lemma delta_map_exp a b na nb rest s :
+  a <> b -> ~ In a rest -> ~ In b rest -> In (sp_id s) (a :: b :: rest) ->
+  sp_exp (delta_map a b na nb rest s) =
+  (if Z.eqb (sp_id s) a then na else 0) + (if Z.eqb (sp_id s) b then nb else 0).
+Proof.
+  intros Hab Ha Hb Hin. unfold delta_map.
+  destruct (Z.eqb (sp_id s) a) eqn:Ea.
+  - apply Z.eqb_eq in Ea. cbn [sp_id delta_refresh].
+    assert (Eb : Z.eqb (sp_id s) b = false) by (apply Z.eqb_neq; lia). rewrite Eb.
+    assert (Er : existsb (Z.eqb (sp_id s)) rest = false).
+    { apply Bool.not_true_is_false. rewrite existsb_Zeqb_In. now rewrite Ea. }
+    cbn [sp_id delta_refresh]. rewrite Er. cbn. lia.
+  - destruct (Z.eqb (sp_id s) b) eqn:Eb.
+    + apply Z.eqb_eq in Eb. cbn [sp_id delta_refresh].
+      assert (Er : existsb (Z.eqb (sp_id s)) rest = false).
+      { apply Bool.not_true_is_false. rewrite existsb_Zeqb_In. now rewrite Eb. }
+      rewrite Er. cbn. lia.
+    + apply Z.eqb_neq in Ea, Eb.
+      assert (Er : existsb (Z.eqb (sp_id s)) rest = true).
+      { apply existsb_Zeqb_In. destruct Hin as [Hin|[Hin|Hin]]; [congruence|congruence|assumption]. }
+      rewrite Er. cbn. lia.
+Qed.
+
+Lemma delta_conserves : forall o p sorted p',
+  delta_coding o p sorted = Ok p' ->
+  NoDup sorted -> NoDup (map sp_id (p_species p)) ->
+  (forall s, In s (p_species p) -> In (sp_id s) sorted) ->
+  sp_sum (p_species p') = o_pop_size o /\
+  Forall2 sp_frame (p_species p) (p_species p') /\
+  heap_super_only (p_heap p) (p_heap p') /\
+  p_detached p' = p_detached p /\ p_orgs p' = p_orgs p /\ p_last_species p' = p_last_species p /\
+  p_highest p' = p_highest p /\ p_epochs_highest p' = 0 /\ p_next_key p' = p_next_key p /\
+  (first_distinct (p_species p) ->
+   (forall s c, In s (p_species p) -> first_org (p_heap p) s = Ok c -> o_super c <= 0) ->
+   forall s' c, In s' (p_species p') -> first_org (p_heap p') s' = Ok c -> o_super c <= sp_exp s').
+Proof.
+  intros o p sorted p' H Hnds Hnd Hall. unfold delta_coding in H.
+  destruct sorted as [|a [|b rest]]; [discriminate| |].
+  - (* a single species takes everything *)
+    destruct (sp_find (p_species p) a) as [sa|] eqn:Fa; cbn [bind] in H; [|discriminate].
+    destruct (set_champ_super (p_heap p) sa (o_pop_size o)) as [h1| | | | |] eqn:S1; cbn [bind] in H; try discriminate.
+    injection H as <-.
+    cbn [p_species p_heap p_detached p_orgs p_with p_with_stagnation p_last_species p_highest p_epochs_highest p_next_key].
+    apply set_champ_super_ok in S1. destruct S1 as [ca [Hca ->]].
+    destruct (first_org_hget _ _ _ Hca) as [ka [ra [Horgs_a Hga]]].
+    destruct (sp_find_In _ _ _ Fa) as [Hsa Hida].
+    set (g := fun s : species => if Z.eqb (sp_id s) a then delta_refresh s (o_pop_size o) else s).
+    assert (Hmap : sp_set (p_species p) a
+                     (fun s => {| sp_id := sp_id s; sp_age := sp_age s; sp_maxfit := sp_maxfit s; sp_exp := o_pop_size o;
+                                  sp_novel := sp_novel s; sp_orgs := sp_orgs s; sp_lastimp := sp_age s |})
+                   = map g (p_species p)) by reflexivity.
+    rewrite Hmap.
+    split.
+    { rewrite (sp_sum_map_isum g (fun i => if Z.eqb i a then o_pop_size o else 0)).
+      - apply isum_once; [assumption|]. rewrite <- Hida. now apply in_map.
+      - intros s Hs. unfold g. destruct (Hall s Hs) as [E|[]]. rewrite <- E, Z.eqb_refl. reflexivity. }
+    split.
+    { clear. induction (p_species p) as [|x l IH]; cbn [map]; constructor; [|exact IH].
+      unfold g, sp_frame. destruct (Z.eqb (sp_id x) a); cbn; repeat split; reflexivity. }
+    split; [exact (hset_super_only _ _ _ _ Hga)|].
+    do 6 (split; [reflexivity|]).
+    intros Hd Hpre s' c Hs' Hc. apply in_map_iff in Hs'. destruct Hs' as [s [<- Hs]].
+    destruct (Hall s Hs) as [E|[]].
+    assert (s = sa) by (apply (sp_find_unique _ _ _ _ Hnd Fa Hs); congruence). subst s.
+    unfold g in *. rewrite Hida, Z.eqb_refl in *. cbn [sp_exp delta_refresh].
+    unfold first_org in Hc. cbn [sp_orgs delta_refresh] in Hc. rewrite Horgs_a in Hc.
+    rewrite hget_hset in Hc. change (o_key (o_with_super ca (o_pop_size o))) with (o_key ca) in Hc.
+    rewrite (hget_key _ _ _ Hga), Z.eqb_refl in Hc. injection Hc as <-. cbn. lia.
+  - (* two or more: the best two split the population, everybody else gets nothing *)
+    destruct (sp_find (p_species p) a) as [sa|] eqn:Fa; cbn [bind] in H; [|discriminate].
+    destruct (sp_find (p_species p) b) as [sb|] eqn:Fb; cbn [bind] in H; [|discriminate].
+    set (half := Z.quot (o_pop_size o) 2) in *.
+    destruct (set_champ_super (p_heap p) sa half) as [h1| | | | |] eqn:S1; cbn [bind] in H; try discriminate.
+    destruct (set_champ_super h1 sb (o_pop_size o - half)) as [h2| | | | |] eqn:S2; cbn [bind] in H; try discriminate.
+    injection H as <-.
+    cbn [p_species p_heap p_detached p_orgs p_with p_with_stagnation p_last_species p_highest p_epochs_highest p_next_key].
+    apply set_champ_super_ok in S1. destruct S1 as [ca [Hca ->]].
+    apply set_champ_super_ok in S2. destruct S2 as [cb [Hcb ->]].
+    destruct (first_org_hget _ _ _ Hca) as [ka [ra [Horgs_a Hga]]].
+    destruct (first_org_hget _ _ _ Hcb) as [kb [rb [Horgs_b Hgb]]].
+    destruct (sp_find_In _ _ _ Fa) as [Hsa Hida]. destruct (sp_find_In _ _ _ Fb) as [Hsb Hidb].
+    inversion Hnds as [|u v Hna Hnds']; subst u v. inversion Hnds' as [|u v Hnb Hnds'']; subst u v.
+    assert (Hab : a <> b) by (intros ->; apply Hna; now left).
+    assert (Har : ~ In a rest) by (intros C; apply Hna; now right).
+    match goal with |- context [fold_left ?f rest ?l] =>
+      assert (Hmap : fold_left f rest l = map (delta_map a b half (o_pop_size o - half) rest) (p_species p))
+    end.
+    { rewrite fold_sp_set_zero. unfold sp_set. rewrite !map_map. apply map_ext. intros x. reflexivity. }
+    rewrite Hmap. clear Hmap.
+    split.
+    { rewrite (sp_sum_map_isum _ (fun i => (if Z.eqb i a then half else 0) + (if Z.eqb i b then o_pop_size o - half else 0))).
+      - rewrite (isum_plus (fun i => if Z.eqb i a then half else 0) (fun i => if Z.eqb i b then o_pop_size o - half else 0)).
+        rewrite !isum_once; try assumption; [lia| |].
+        + rewrite <- Hidb. now apply in_map.
+        + rewrite <- Hida. now apply in_map.
+      - intros s Hs. apply delta_map_exp; auto. }
+    split.
+    { clear. induction (p_species p) as [|x l IH]; cbn [map]; constructor; [apply delta_map_frame|exact IH]. }
+    split.
+    { eapply heap_super_only_trans; [exact (hset_super_only _ _ _ half Hga)|exact (hset_super_only _ _ _ (o_pop_size o - half) Hgb)]. }
+    do 6 (split; [reflexivity|]).
+    intros Hd Hpre s' c Hs' Hc. apply in_map_iff in Hs'. destruct Hs' as [s [<- Hs]].
+    rewrite (delta_map_exp a b _ _ rest s Hab Har Hnb (Hall s Hs)).
+    unfold first_org in Hc. rewrite (proj2 (proj2 (proj2 (proj2 (delta_map_frame a b half (o_pop_size o - half) rest s))))) in Hc.
+    destruct (sp_orgs s) as [|k r] eqn:Horgs; [discriminate|].
+    pose proof (hget_key _ _ _ Hga) as Kca.
+    assert (Kcb : o_key cb = kb) by exact (hget_key _ _ _ Hgb).
+    assert (Hkab : ka <> kb).
+    { intros E. apply Hab. rewrite <- Hida, <- Hidb. apply (Hd sa sb ka Hsa Hsb); [now rewrite Horgs_a|now rewrite Horgs_b, E]. }
+    rewrite hget_hset in Hc. change (o_key (o_with_super cb (o_pop_size o - half))) with (o_key cb) in Hc.
+    rewrite Kcb in Hc.
+    destruct (Z.eqb (sp_id s) b) eqn:Eb.
+    + apply Z.eqb_eq in Eb. assert (s = sb) by (apply (sp_find_unique _ _ _ _ Hnd Fb Hs Eb)). subst s.
+      rewrite Horgs_b in Horgs. injection Horgs as <- <-. rewrite Z.eqb_refl in Hc. injection Hc as <-.
+      assert (Ea : Z.eqb (sp_id sb) a = false) by (apply Z.eqb_neq; lia). rewrite Ea. cbn. lia.
+    + assert (Hk_b : Z.eqb kb k = false).
+      { apply Z.eqb_neq. intros E. apply Z.eqb_neq in Eb. apply Eb. rewrite <- Hidb.
+        apply (Hd s sb k Hs Hsb); [now rewrite Horgs|now rewrite Horgs_b, E]. }
+      rewrite Hk_b in Hc. rewrite hget_hset in Hc. change (o_key (o_with_super ca half)) with (o_key ca) in Hc.
+      rewrite Kca in Hc.
+      destruct (Z.eqb (sp_id s) a) eqn:Ea.
+      * apply Z.eqb_eq in Ea. assert (s = sa) by (apply (sp_find_unique _ _ _ _ Hnd Fa Hs Ea)). subst s.
+        rewrite Horgs_a in Horgs. injection Horgs as <- <-. rewrite Z.eqb_refl in Hc. injection Hc as <-. cbn. lia.
+      * assert (Hk_a : Z.eqb ka k = false).
+        { apply Z.eqb_neq. intros E. apply Z.eqb_neq in Ea. apply Ea. rewrite <- Hida.
+          apply (Hd s sa k Hs Hsa); [now rewrite Horgs|now rewrite Horgs_a, E]. }
+        rewrite Hk_a in Hc.
+        assert (o_super c <= 0); [|lia]. apply (Hpre s c Hs). unfold first_org. now rewrite Horgs.
 Qed.
